@@ -36,7 +36,7 @@ CLAIMS = {
   ref="DESIGN.md 5 C06"),
  'C08': dict(
   text="Deductive proof, sequential: _build_file raises RuntimeError with empty effect trace, no callback and no change to any existing object when its path is already claimed or finished in this build (or is the cache file); _subbuild likewise when the subbuild key is taken; claims are single map updates under the documented lock (lockset obligations on Cache); a True result of the replay functions implies the record is not setup-failed and its path is unclaimed; attempts are recorded on the caller's record, closed; subbuild keys are the hashable form of [name, args, kwargs] (key lemma of C18); a failed attempt is marked setup_failed exactly when no user function was called (only such records are retried by the next build), and leaves no claim in progress.",
-  note="Threads: only the atomic-section (lockset) obligations are decided; all-or-nothing registration of a reused subtree (Cache.use_cached_operation) is a trusted contract with the bounded stand-in cache_forest.",
+  note="Threads: the atomic-section (lockset) obligations are decided, plus ONE rely condition: Cache.start_subbuild / start_building_file may refuse although the caller's unlocked early check passed (another thread claimed the key in between); under it _subbuild keeps its exception clauses (a refusal is not recorded as a failure of the user function) and _build_file must hold the claim before it moves the target aside - the latter FAILS on the unchanged tree and is the open known finding of this property (replayed with one forced two-thread schedule). Other interleavings are not decided. All-or-nothing registration of a reused subtree (Cache.use_cached_operation) is a trusted contract with the bounded stand-in cache_forest.",
   ref="DESIGN.md 5 C08"),
  'C10': dict(
   text="Deductive proof over _build_file, _rebuild_file, _prepare_file_creation, _make_dirs, _make_room and build_file_with_comparison, on all paths including OSError from every mutating primitive: normal return implies the record is closed, not raised and registered, the user function was called once with fresh copies of the sanitized arguments; any Exception closes the record and marks it raised (KeyboardInterrupt passes through); a failing _make_dirs has attempted rmdir on every directory it created; the error-created directories returned by _set_created_dirs are exactly BuildDirs' error set; every Exception exit of _build_file/_rebuild_file gives the reservation of the target back (ghost bd_resv) and the function receives abspath of the given name.",
@@ -55,7 +55,7 @@ CLAIMS = {
   note="The 'only if' direction (a record is rejected only for one of the listed reasons) and the read-footprint argument are not decided; composition over whole builds is informal (see C01).",
   ref="DESIGN.md 5 C05"),
  'C13': dict(
-  text="Deductive proof of the comparison primitives: _file_metadata returns exactly {size: st_size, timeNs: st_mtime_ns} of the file (IsADirectoryError / FileNotFoundError exactly for directories / missing paths); file_comparison_result dispatches METADATA/HASH and rejects other names with ValueError; _file_hash either hashes the file now and memoises (hash, built-flag) or serves a memo entry whose built-flag equals the current one and whose path is still a regular file; read returns that result only for virtual files; _is_build_file_cached is JsonUtil.is_equal(recorded, current-or-None) and implies the output exists; _rebuild_file records the result taken after the function returned; reuse records the current result; the public methods read_text/read_binary/declare_read (and list_dir, walk, is_file, is_dir, exists, get_size) are verified to record exactly one simple operation carrying the sanitized path and the name of the comparison kind that was asked for.",
+  text="Deductive proof of the comparison primitives: _file_metadata returns exactly {size: st_size, timeNs: st_mtime_ns} of the file (IsADirectoryError / FileNotFoundError exactly for directories / missing paths); file_comparison_result dispatches METADATA/HASH and rejects other names with ValueError; _file_hash either hashes the file now and memoises (hash, built-flag) or serves a memo entry whose built-flag equals the current one and whose path is still a regular file; read returns that result only for virtual files; _is_build_file_cached is JsonUtil.is_equal(recorded, current-or-None) and implies the output exists; _rebuild_file records the result taken after the function returned; reuse records the current result; the public methods read_text/read_binary/declare_read (and list_dir, walk, is_file, is_dir, exists, get_size) are verified to record exactly one simple operation carrying the sanitized path and the name of the comparison kind that was asked for. Coverage of a look-up (nested in a reused subtree): the replay functions return True only after every recorded suboperation was handed to its replay function (ghost `replayed`, loop invariant over the visited prefix), so no recorded read is skipped and the walk is not cut short.",
   note="SHA-256 is an uninterpreted digest (content -> hash injectivity assumed); the memo invariant 'entry equals the hash of the current content' needs the history of writes and is not decided (design candidate M7); which bytes _file_hash feeds to the digest and the integer exactness of timeNs are pinned by the comparison_cases replay only (bounded), which decides when the body regresses or leaves the analysable subset.",
   ref="DESIGN.md 5 C13"),
  'C16': dict(
